@@ -11,13 +11,20 @@ from .scripted import run_scripted
 
 
 def probe(EoN, chk, entry="_ListDict_"):
-    L = EoN.simulation._ListDict_(weighted=True)
-    L.insert("heavy", weight=400.0)
-    for k in range(30):
-        L.insert(("light", k), weight=1.0)
+    def build():
+        # a candidate set with a history: the heaviest candidate was added last and a light one was removed since, so the
+        # internal order of the candidates is no longer their order of insertion
+        L_ = EoN.simulation._ListDict_(weighted=True)
+        for k in range(30):
+            L_.insert(("light", k), weight=1.0)
+        L_.insert("heavy", weight=400.0)
+        L_.remove(("light", 5))
+        return L_
+    L = build()
     n = 0
     for R in (1, 5, 50, 99, 100, 101, 150, 300, 999, 1000, 1001, 1500):
         state = {"rounds": 0}
+        L = build()
 
         def decider(kind, info, pop, probs):
             if kind == "choice":
@@ -27,6 +34,8 @@ def probe(EoN, chk, entry="_ListDict_"):
             if kind == "cmp":
                 state["rounds"] += 1
                 return 1          # reject
+            if kind == "choices" and probs:
+                return max(range(len(probs)), key=lambda i_: probs[i_])      # a weighted draw: its most likely outcome
             return 0
         for fn_name in ("choose_random", "random_removal"):
             state["rounds"] = 0
@@ -41,7 +50,12 @@ def probe(EoN, chk, entry="_ListDict_"):
                 continue
             extra = [t[0] for t in leaf.tape if t[0] not in ("choice", "random", "cmp", "cmpdet")]
             nchoice = sum(1 for t in leaf.tape if t[0] == "choice")
-            if leaf.result != "heavy" or extra or nchoice != R + 1:
+            if leaf.result == "heavy" and (extra or nchoice != R + 1):
+                # another (exact) way of finishing a long run of rejections is not a violation of the selection law
+                chk.note("%s.%s: after %d consecutive rejections the sampler made %d proposals and other draws %r and still returned the heaviest candidate"
+                         % (entry, fn_name, R, nchoice, extra))
+                continue
+            if leaf.result != "heavy":
                 chk.violation("%s.%s|selection-after-many-rejections|skewed-weights" % (entry, fn_name),
                               "after %d consecutive rejections of a light candidate and one accepted proposal of the heavy one, %s() returned %r "
                               "(proposals made: %d, other draws: %r): rejected proposals must not be returned and the loop must not change with the number of rejections"
